@@ -69,7 +69,10 @@ namespace options
         void usage(std::ostream& s) const;
 
     private:
-        const parser& parser_;
+        friend class options::parser;
+
+        // points to the parser owning this group; rebound when that parser is moved
+        const parser* parser_;
         std::string name_;
         std::string description_;
 
